@@ -624,6 +624,11 @@ func c17Run(c *mc.Ctx) {
 	// run evaluates cur.
 	run := func(stat string, nontrivialIfValid bool) {
 		c.CaseIdx(idx)
+		if cur.Stream == "fifo" {
+			// thousands of hand-overs between a writer and a reader through a pipe: a fraction of a
+			// second on an idle machine, much longer when every core is taken
+			c.AllowSlow(180)
+		}
 		f, or := e.eval(&cur)
 		c.Eval(!or.valid || nontrivialIfValid || c17Special(or.full))
 		c.Stat(stat, 1)
